@@ -47,7 +47,9 @@ const (
 	XFold2
 	XEmpty
 	XMany
-	XMany2 // 100 long headers (about 11 KiB: three buffer nodes)
+	XMany2     // 100 long headers (about 11 KiB: three buffer nodes)
+	XTabOWS    // HTAB as optional whitespace around a field value (RFC 7230 3.2.3: OWS = *( SP / HTAB ))
+	XFoldColon // an obs-folded value whose continuation line contains a colon
 )
 
 var NearMissNames = []string{"", "Content-Lengthx", "Xontent-Length", "Content_Length", "Transfer-Encodin", "Ransfer-Encoding", "Content\rLength", "Transfer\rEncoding", "Content-Length-", "Transfer_Encoding",
@@ -68,11 +70,13 @@ type Spec struct {
 	Close         bool   `json:"close,omitempty"`
 	ID            string `json:"id"`
 	TENameMixed   bool   `json:"temix,omitempty"`
-	TrName        string `json:"trname,omitempty"`         // trailer field name (default X-Tr)
-	Multipart     bool   `json:"multipart,omitempty"`      // FCL only: a multipart/form-data body whose bytes after the closing boundary (epilogue, RFC 2046) fill it up to BodyLen
-	ChunkExt      bool   `json:"chunk_ext,omitempty"`      // chunked framings: every chunk-size line carries a chunk extension (RFC 7230 4.1.1: recipients ignore unknown ones)
-	Decline       bool   `json:"decline,omitempty"`        // Expect framings: carries X-Decline, which the harness engine's ContinueHandler refuses (417); the client sends the body anyway
-	TrUnannounced bool   `json:"tr_unannounced,omitempty"` // FChunkedTrailer without a Trailer header field: the section must be consumed, its delivery is not demanded
+	TrName        string `json:"trname,omitempty"`          // trailer field name (default X-Tr)
+	Multipart     bool   `json:"multipart,omitempty"`       // FCL only: a multipart/form-data body whose bytes after the closing boundary (epilogue, RFC 2046) fill it up to BodyLen
+	TabFraming    bool   `json:"tab_framing,omitempty"`     // the framing field's value is set off with HTAB instead of SP ("Content-Length:\t5", "Transfer-Encoding:\tchunked")
+	LongChunkSize bool   `json:"long_chunk_size,omitempty"` // chunk sizes are written with 16 hex digits (zero padded)
+	ChunkExt      bool   `json:"chunk_ext,omitempty"`       // chunked framings: every chunk-size line carries a chunk extension (RFC 7230 4.1.1: recipients ignore unknown ones)
+	Decline       bool   `json:"decline,omitempty"`         // Expect framings: carries X-Decline, which the harness engine's ContinueHandler refuses (417); the client sends the body anyway
+	TrUnannounced bool   `json:"tr_unannounced,omitempty"`  // FChunkedTrailer without a Trailer header field: the section must be consumed, its delivery is not demanded
 }
 
 type Expect struct {
@@ -201,6 +205,12 @@ func Build(s Spec) ([]byte, Expect) {
 	case XFold2:
 		w.WriteString("X-Fold: p1\r\n p2\r\n\tp3\r\nX-After: a\r\n")
 		ex.Custom = append(ex.Custom, httpref.Header{Name: "X-Fold", Value: "p1 p2 p3"}, httpref.Header{Name: "X-After", Value: "a"})
+	case XTabOWS:
+		w.WriteString("X-Tab:\tv w \t\r\n")
+		ex.Custom = append(ex.Custom, httpref.Header{Name: "X-Tab", Value: "v w"})
+	case XFoldColon:
+		w.WriteString("X-Ref: see\r\n http://example.com/doc at 10:30\r\n")
+		ex.Custom = append(ex.Custom, httpref.Header{Name: "X-Ref", Value: "see http://example.com/doc at 10:30"})
 	case XEmpty:
 		w.WriteString("X-Empty:\r\n")
 		ex.Custom = append(ex.Custom, httpref.Header{Name: "X-Empty", Value: ""})
@@ -228,7 +238,11 @@ func Build(s Spec) ([]byte, Expect) {
 			w.WriteString("Expect: 100-continue\r\n")
 			ex.Expect100 = true
 		}
-		fmt.Fprintf(&w, "%s: %d\r\n", clName(s.CLName), len(body))
+		if s.TabFraming {
+			fmt.Fprintf(&w, "%s:\t%d\t\r\n", clName(s.CLName), len(body))
+		} else {
+			fmt.Fprintf(&w, "%s: %d\r\n", clName(s.CLName), len(body))
+		}
 		if s.CLName == NRepeat {
 			fmt.Fprintf(&w, "%s: %d\r\n", clName(NCanon), len(body))
 		}
@@ -246,15 +260,29 @@ func Build(s Spec) ([]byte, Expect) {
 		if s.Framing == FChunkedTrailer && !s.TrUnannounced {
 			w.WriteString("Trailer: " + trName + "\r\n")
 		}
-		if s.TENameMixed {
+		if s.TabFraming {
+			w.WriteString("Transfer-Encoding:\tchunked\r\n\r\n")
+		} else if s.TENameMixed {
 			w.WriteString("tRaNsFeR-eNcOdInG: chunked\r\n\r\n")
 		} else {
 			w.WriteString("Transfer-Encoding: chunked\r\n\r\n")
 		}
+		continue2 := false
 		for _, c := range chunks(body, s.Part) {
 			ext := ""
 			if s.ChunkExt {
 				ext = ";name=value"
+			}
+			switch {
+			case s.LongChunkSize:
+				fmt.Fprintf(&w, "%016x%s\r\n", len(c), ext)
+				continue2 = true
+			}
+			if continue2 {
+				continue2 = false
+				w.Write(c)
+				w.WriteString("\r\n")
+				continue
 			}
 			switch s.Part {
 			case PHexUpper:
